@@ -360,6 +360,19 @@ func c08Run(p *run.Part, tier string) {
 		cids[i] = c08One(p, g[i], "default")
 		c08One(p, g[i], "linkkey")
 	}
+	// every ordered pair of shape representatives, under every pair of codecs, one right after the other:
+	// what a codec carries from one call to the next depends on the shapes of both
+	pairs := c08Pairs(g, tier)
+	for i, pr := range pairs {
+		if dl.Expired() {
+			expired = true
+			break
+		}
+		c08Seq.index, c08Seq.tier = len(g)+i+1, tier
+		c08One(p, pr[0].spec, pr[0].codec)
+		c08One(p, pr[1].spec, pr[1].codec)
+	}
+	p.SetExtra("ordered_pairs_of_representatives", len(pairs))
 	c08Seq.index = 0
 	if expired {
 		p.Inexhaustive("deadline")
@@ -408,6 +421,71 @@ func c08Run(p *run.Part, tier string) {
 	p.SetExtra("cid_digest", mine)
 	p.Sample(6, c08Case{Spec: g[3], Codec: "default", What: "roundtrip"})
 	p.Sample(6, c08Case{Spec: g[len(g)-2], Codec: "linkkey", What: "roundtrip"})
+}
+
+type c08Item struct {
+	spec  entrySpec
+	codec string
+}
+
+// c08Pairs: one representative per shape class of the grammar (payload length class, numbers of predecessors and
+// references, writer, clock-time class), every ordered pair of them, every pair of codecs.
+func c08Pairs(g []entrySpec, tier string) [][2]c08Item {
+	class := func(s entrySpec) string {
+		pl := 0
+		switch n := len(s.Payload); {
+		case n == 0:
+		case n == 1:
+			pl = 1
+		case n < 24:
+			pl = 2
+		case n < 256:
+			pl = 3
+		default:
+			pl = 4
+		}
+		tc := 0
+		switch t := s.Time; {
+		case t < 0:
+			tc = 3
+		case t > 1<<31:
+			tc = 2
+		case t > 23:
+			tc = 1
+		}
+		return fmt.Sprint(pl, len(s.Next), len(s.Refs), s.Writer, tc)
+	}
+	seen := map[string]bool{}
+	var reps []entrySpec
+	for _, s := range g {
+		if k := class(s); !seen[k] {
+			seen[k] = true
+			reps = append(reps, s)
+		}
+	}
+	max := 14
+	if tier == "thorough" {
+		max = 60
+	}
+	if len(reps) > max {
+		// keep the classes spread over the grammar rather than its first entries
+		var r []entrySpec
+		for i := 0; i < max; i++ {
+			r = append(r, reps[i*len(reps)/max])
+		}
+		reps = r
+	}
+	var out [][2]c08Item
+	for _, a := range reps {
+		for _, b := range reps {
+			for _, ca := range []string{"default", "linkkey"} {
+				for _, cb := range []string{"default", "linkkey"} {
+					out = append(out, [2]c08Item{{a, ca}, {b, cb}})
+				}
+			}
+		}
+	}
+	return out
 }
 
 func sameAfterDedup(a, b entrySpec) bool {
@@ -621,6 +699,12 @@ func init() {
 					c08Seq.index, c08Seq.tier = i+1, c.Tier
 					c08One(p, g[i], "default")
 					c08One(p, g[i], "linkkey")
+				}
+				pairs := c08Pairs(g, c.Tier)
+				for i := 0; len(g)+i < c.Index && i < len(pairs); i++ {
+					c08Seq.index, c08Seq.tier = len(g)+i+1, c.Tier
+					c08One(p, pairs[i][0].spec, pairs[i][0].codec)
+					c08One(p, pairs[i][1].spec, pairs[i][1].codec)
 				}
 				c08Seq.index = 0
 				return
